@@ -1,4 +1,5 @@
 import DrummerVerif.Lemmas.C10H
+import DrummerVerif.Lemmas.Small
 /-!
 # C10 — requests reach only their addressee, after a report, at most once
 
@@ -36,6 +37,16 @@ theorem only_addressee :
     ∀ (a : Addr) (cs : List Cmd) (d' : DB),
     runCmds { } cs = Outcome.ok d' → ∀ (r : Request), r ∈ DB.lookupRequests d' a → r.raftAddress = a :=
   @_root_.Drummer.only_addressee
+
+/-! ### a round without requests is not a launch (it cannot use up the one launch the DB accepts) -/
+
+theorem empty_round_is_not_a_launch :
+    ∀ (d : DB),
+      DB.applyRequests d [] = Outcome.ok (DB.mergeRequests d [], 0) ∧
+        (DB.mergeRequests d []).kv = d.kv ∧
+          (DB.mergeRequests d []).launchDeadline = d.launchDeadline ∧ (DB.mergeRequests d []).requests = d.requests :=
+  @_root_.Drummer.empty_round_is_not_a_launch
+
 
 end C10
 end Drummer
